@@ -167,7 +167,7 @@ class Facts:
 def children(node):
     if isinstance(node, dict):
         for k, v in node.items():
-            if k in ("pat",):
+            if k in ("pat",) or k.startswith("_"):
                 # patterns contain no expressions except guards (handled as 'guard')
                 continue
             if isinstance(v, (dict, list)):
@@ -282,12 +282,30 @@ def enum_matches(node, adt, skip_tracing=True):
     """`match` expressions written in the source (not loop / ? desugarings) whose scrutinee is (a reference to) `adt`."""
     out = []
     for n in walk(node, skip_tracing):
+        if n.get("k") == "if":
+            n = iflet_as_match(n)
+            if n is None:
+                continue
         if n.get("k") != "match" or not n.get("src", "").startswith("Normal"):
             continue
         sty = n.get("sty", "").lstrip("&").replace("mut ", "")
         if sty == adt or sty.startswith(adt + "<"):
             out.append(n)
     return out
+
+
+def iflet_as_match(n):
+    """`if let P = e { A } else { B }` seen as `match e { P => A, _ => B }` (so that rules about a match on an enum do not depend on
+    which of the two spellings the source uses); None for any other `if`."""
+    c = n.get("cond")
+    if not (isinstance(c, dict) and c.get("k") == "letexpr"):
+        return None
+    if "_as_match" not in n:
+        els = n.get("else") if n.get("else") is not None else {"k": "block", "stmts": [], "expr": None}
+        n["_as_match"] = {"k": "match", "ln": n.get("ln"), "x": n.get("x"), "src": "Normal(IfLet)", "sty": c.get("sty", ""), "scrut": c.get("e"),
+                          "arms": [{"ln": n.get("ln"), "pat": c.get("pat"), "guard": None, "body": n.get("then")},
+                                   {"ln": n.get("ln"), "pat": {"k": "wild"}, "guard": None, "body": els}]}
+    return n["_as_match"]
 
 
 # ---- K1: pattern matrices ---------------------------------------------------
